@@ -49,7 +49,13 @@ _TreeSet_update(BTree *self, PyObject *seq)
         if (v == NULL)
         {
             if (PyErr_Occurred())
+            {
+                /* the iterator failed (with ind >= 0 the exit below would
+                * return the count with the exception still set)
+                */
+                ind = -1;
                 goto err;
+            }
             else
                 break;
         }
